@@ -66,6 +66,14 @@ DONE = {
               "bounds; MBT vectors (exhaustive small, simulated large, all 65536 header byte pairs) are replayed against "
               "pfb.Decode and recorded per-Read traces are validated by TLC (TracePFB)."),
         ref="6.9, 11 C14", tech="explicit TLA+ specification + refinement check with TLC, model-based test replay and trace validation"),
+    "C08": dict(
+        text=("Font.Write (4 formats) and WritePDF outputs are taken apart by an independent decoder in the harness (PFB "
+              "framing, hex, eexec 55665, charstring 4330 + four lead bytes, number/command decoding, tokenizer); TLC validates "
+              "the recorded file structure against T1File.tla (segment lengths, end marker, legal lead bytes, WritePDF "
+              "lengths) and runs every integer glyph's charstring on the BuildChar machine T1Charstring.tla, demanding the "
+              "input glyph and proper number formats; dictionaries, encoding and fractional outlines are compared by the "
+              "harness on the independently tokenized program."),
+        ref="6.5, 11 C08", tech="explicit TLA+ specification, trace validation of the writer's output with TLC"),
     "C09": dict(
         text=("RoundTrip.tla defines Equiv9 on projected fonts; the harness generates fonts along the axes the property "
               "names, writes each in the four formats, reads it back and records the projected pair as a trace event; TLC "
@@ -84,6 +92,12 @@ DONE = {
               "grid, axis-aligned matrices) with the prescribed answers; the harness calls every query method of type1.Font "
               "and afm.Metrics and compares."),
         ref="6.11, 11 C19", tech=TECH_MBT),
+    "C10": dict(
+        text=("Accepted inputs (independent writer with unusual legal content, TLC-generated model fonts, fuzz corpus) go "
+              "through Read, (Write, Read)^2 in every format; TLC validates every history against RoundTrip!Quant10 (widths "
+              "rounded half away from zero, coordinates within 1/214, BlueScale snap) and F2 = F3; write errors and panics on "
+              "accepted fonts are violations. A relation over recorded histories; strength comes from the inputs."),
+        ref="6.7, 11 C10, 13", tech="explicit TLA+ relation, trace validation of read/write/read histories with TLC"),
     "C11": dict(
         text=("Budget: PSMachine counts operations exactly as the library; TLC checks BudgetTransparent on the lock-step "
               "product of a budgeted and an unbudgeted run for every program x budget and the behaviours are replayed with "
@@ -91,6 +105,15 @@ DONE = {
               "Start check: PSStart.tla over all 65536 two-byte prefixes and all call histories up to length 3-4."),
         ref="6.1, 11 C11", tech=TECH_MBT),
 }
+
+DONE["C20"] = dict(
+    text=("T1Charstring!CanonicalNum / DecodeNum specify the four number formats; every integer of a range, all format "
+          "boundaries and powers of two, as coordinate delta / width / hint, is written by Font.Write, located in the file by "
+          "the independent decoder and validated by TLC (bytes = proper format, decode = value, value read back); fractional "
+          "deltas: TLC checks p q div with exact arithmetic (q <= 107, |p/q - x| <= 1/214); long paths: every point within "
+          "1/214 after independent decoding and after type1.Read; T1Drift.tla: TLC verifies the no-accumulation design "
+          "argument for unbounded path length on a scaled model."),
+    ref="6.5, 6.6, 11 C20", tech="explicit TLA+ specification, trace validation with TLC + exhaustive model check of the drift argument")
 
 PENDING = "check not built yet in this round (planned, see DESIGN.md section 11)"
 
